@@ -131,7 +131,9 @@ class C06(Prop):
             p = {"gain": rng.choice([300, 1000, 3500, rng.randrange(300, 3501)]), "dc": rng.randrange(-300, 301), "sigma": rng.choice([0, 0, 10, 50]),
                  "delay": rng.randrange(1000), "ppm": rng.randrange(-200, 201), "lead": 0, "leadn": 0, "level": 0, "seed": rng.randrange(10 ** 6), "app": 0}
             hist = rng.choice(["zeros", "zeros", "gauss", "uniform", "const", "tone", "prev", "prev-trunc", "prev-zero-gap", "none",
-                               "locked-trunc-silence", "locked-trunc-silence", "locked-trunc-noise"])
+                               "locked-trunc-silence", "locked-trunc-silence", "locked-trunc-noise", "rekey", "rekey", "tone", "tone"])
+            if k in (6, 7):
+                hist = "tone"
             if k in (1, 2, 3, 4, 5):
                 hist = "locked-trunc-silence"
             pre = []
@@ -144,7 +146,13 @@ class C06(Prop):
             elif hist == "const":
                 p.update(lead=3, leadn=rng.choice([1000, 20000]), level=rng.choice([1, 100, 5000, 10000, -5000]))
             elif hist == "tone":
-                p.update(lead=4, leadn=rng.choice([1000, 20000, 100000]), level=rng.choice([100, 5000, 10000]))
+                # 1 kHz, or exactly periodic tones at the carrier detector's own frequencies (2400 in band, 3600 out of band) and others
+                p.update(lead=6 if k in (6, 7) else rng.choice([4, 6, 6, 7, 8, 9]), leadn=rng.choice([1000, 20000, 96000, 96013, 96027, 100000]) if k not in (6, 7) else rng.choice([96000, 96013, 96027, 96040 + k]),
+                         level=10000 if k in (6, 7) else rng.choice([100, 5000, 10000, 10000]))
+                if k in (6, 7):
+                    p.update(gain=1000, dc=0, sigma=0)
+                if rng.random() < 0.5:
+                    pre = [0] * rng.choice([100, 4800, 48000])         # silence between the tone and the transmission
             elif hist.startswith("prev"):
                 prev = list(tx_p)
                 if hist == "prev-trunc":
@@ -155,6 +163,11 @@ class C06(Prop):
                     # exact digital silence between transmissions: no dc, no noise
                     p.update(dc=0, sigma=0)
                     pre = prev + [0] * rng.choice([4800, 48000, 200000])
+            if hist == "rekey":
+                # a complete transmission (received to its end-of-stream), then the next one keyed up almost at once
+                pre = list(tx_q) + [0] * rng.choice([0, 1, 7, 100, 180, 240, 300, 480, 960, 1919, rng.randrange(0, 4000)])
+                if rng.random() < 0.5:
+                    p.update(dc=0, sigma=0)
             if hist.startswith("locked-trunc"):
                 # the earlier transmission is cut while it is being received; then silence (exact zeros) or noise; then the new transmission
                 cut = rng.randrange(70000, len(tx_q) - 3000)
